@@ -85,7 +85,9 @@ impl<T: Clone + Copy + Number + Signed + std::cmp::PartialOrd> Matrix<T> {
                     imax = k;
                 }
             }
-            //TODO check max_a to ensure matrix is not singular 
+            // Singular matrix: no non-zero pivot in this column, so there is nothing
+            // to eliminate (the zero stays on the diagonal and the determinant is zero)
+            if max_a == T::zero() { continue; }
             if imax != i {
                 permutation.swap_rows( i, imax );
                 self.swap_rows( i, imax );
